@@ -409,6 +409,8 @@ pub struct RunCfg {
     pub cases_override: Option<u32>,
     pub include_known: bool,
     pub no_valgrind: bool,
+    pub no_fuzz: bool,
+    pub fuzz_runs: Option<u64>,
 }
 
 fn seed_bytes(seed: u64, prop: &str, unit: &str, runner: usize) -> [u8; 32] {
@@ -753,6 +755,31 @@ pub fn run_property(cfg: RunCfg) -> i32 {
         });
     }
 
+    // 3c. E2: libFuzzer + ASan campaigns for the queue properties (thorough tier only)
+    let mut fuzz_stats = json!({});
+    if cfg.thorough && !stop.load(Ordering::SeqCst) && !cfg.no_fuzz {
+        let targets: &[&str] = match cfg.prop.id {
+            "C03" => &["q_fifo"],
+            "C04" => &["q_spmc"],
+            "C19" => &["q_list"],
+            _ => &[],
+        };
+        for t in targets {
+            let runs = cfg.fuzz_runs.unwrap_or(125_000);
+            let r = run_fuzz(&cfg.verif, t, runs, cfg.jobs, cfg.seed);
+            fuzz_stats[*t] = json!({"executions": r.execs, "inconclusive_artifacts": r.inconclusive, "violations": r.violations.len(), "note": r.note, "campaigns": "random seed corpus + empty corpus", "runs_per_job": runs});
+            for (fp, path) in r.violations {
+                if known.matching(cfg.prop.id, "fuzz", &fp).is_none() {
+                    println!("violation: {fp}");
+                    violations.push((fp, path));
+                }
+            }
+            if !r.note.is_empty() {
+                println!("fuzz {t}: {}", r.note);
+            }
+        }
+    }
+
     // 4. verdicts
     let mut sh = shared.lock().unwrap();
     let mut seen = HashSet::new();
@@ -790,6 +817,7 @@ pub fn run_property(cfg: RunCfg) -> i32 {
             "shrink_evaluations": sh.shrink_evaluations,
             "regress_replays": regress_run,
             "memcheck_sample_runs": sh.vg_runs,
+            "fuzz_e2": fuzz_stats,
             "memcheck_untrusted_reports_ignored": sh.vg_reports_untrusted,
             "classes": sh.classes,
             "by_unit": sh.by_unit,
@@ -835,6 +863,125 @@ pub fn run_property(cfg: RunCfg) -> i32 {
         return 2;
     }
     0
+}
+
+// ---------------------------------------------------------------------------------------
+// E2: coverage-guided in-process fuzzing of the queues (libFuzzer + ASan), thorough tier
+// ---------------------------------------------------------------------------------------
+pub struct FuzzResult {
+    pub execs: u64,
+    pub violations: Vec<(String, PathBuf)>,
+    pub inconclusive: u64,
+    pub note: String,
+}
+
+fn fuzz_cmd(engine: &Path) -> Command {
+    let mut c = Command::new("cargo");
+    c.current_dir(engine).env("RUSTFLAGS", "--cfg may_verif").env("CARGO_NET_OFFLINE", "true").env("ASAN_OPTIONS", "detect_leaks=0:abort_on_error=1");
+    c.arg("+nightly").arg("fuzz");
+    c
+}
+
+pub fn run_fuzz(verif: &Path, target: &str, runs_per_job: u64, jobs: usize, seed: u64) -> FuzzResult {
+    let engine = verif.join("engine");
+    let mut res = FuzzResult { execs: 0, violations: vec![], inconclusive: 0, note: String::new() };
+    let b = fuzz_cmd(&engine).args(["build", target]).output();
+    match b {
+        Ok(o) if o.status.success() => {}
+        Ok(o) => {
+            res.note = format!("fuzz build failed: {}", String::from_utf8_lossy(&o.stderr).lines().rev().take(5).collect::<Vec<_>>().join(" | "));
+            return res;
+        }
+        Err(e) => {
+            res.note = format!("fuzz build failed to start: {e}");
+            return res;
+        }
+    }
+    let work = engine.join("target").join("fuzzwork").join(target);
+    let _ = std::fs::remove_dir_all(&work);
+    // two campaigns: a corpus of random seed files, and the empty corpus (seed choice matters)
+    for (ci, nseed) in [(0usize, 24usize), (1, 0)] {
+        let corpus = work.join(format!("corpus{ci}"));
+        let arts = work.join(format!("artifacts{ci}"));
+        let logs = work.join(format!("logs{ci}"));
+        for d in [&corpus, &arts, &logs] {
+            let _ = std::fs::create_dir_all(d);
+        }
+        let mut x = seed.wrapping_mul(0x9e37_79b9_7f4a_7c15) | 1;
+        for i in 0..nseed {
+            let len = 40 + (i * 13) % 300;
+            let bytes: Vec<u8> = (0..len)
+                .map(|_| {
+                    x ^= x << 13;
+                    x ^= x >> 7;
+                    x ^= x << 17;
+                    (x >> 24) as u8
+                })
+                .collect();
+            let _ = std::fs::write(corpus.join(format!("seed{i:02}")), bytes);
+        }
+        let out = fuzz_cmd(&engine)
+            .current_dir(&logs)
+            .env("CARGO_MANIFEST_DIR", &engine)
+            .args(["run", "--fuzz-dir"])
+            .arg(engine.join("fuzz"))
+            .arg(target)
+            .arg(&corpus)
+            .arg("--")
+            .arg(format!("-runs={runs_per_job}"))
+            .arg(format!("-jobs={jobs}"))
+            .arg(format!("-workers={jobs}"))
+            .arg("-len_control=0")
+            .arg("-max_len=400")
+            .arg(format!("-seed={}", seed.max(1)))
+            .arg(format!("-artifact_prefix={}/", arts.display()))
+            .output();
+        if let Err(e) = out {
+            res.note = format!("fuzz run failed to start: {e}");
+            return res;
+        }
+        // executions: "Done N runs" lines of the job logs
+        if let Ok(rd) = std::fs::read_dir(&logs) {
+            for e in rd.flatten() {
+                if let Ok(t) = std::fs::read_to_string(e.path()) {
+                    for l in t.lines() {
+                        if let Some(r) = l.strip_prefix("Done ") {
+                            res.execs += r.split(' ').next().and_then(|n| n.parse::<u64>().ok()).unwrap_or(0);
+                        }
+                    }
+                }
+            }
+        }
+        // artifacts: re-run each once to classify it
+        if let Ok(rd) = std::fs::read_dir(&arts) {
+            let mut files: Vec<PathBuf> = rd.flatten().map(|e| e.path()).collect();
+            files.sort();
+            for f in files {
+                let o = fuzz_cmd(&engine).args(["run", target]).arg(&f).output();
+                let se = o.map(|o| String::from_utf8_lossy(&o.stderr).to_string()).unwrap_or_default();
+                if se.contains("MAYVERIF-BUDGET") {
+                    res.inconclusive += 1;
+                    continue;
+                }
+                let fp = if let Some(l) = se.lines().find(|l| l.starts_with("MAYVERIF-VIOLATION")) {
+                    format!("fuzz {}", l.split(" :: ").next().unwrap_or(l).trim_start_matches("MAYVERIF-VIOLATION ").trim())
+                } else if let Some(l) = se.lines().find(|l| l.contains("ERROR: AddressSanitizer")) {
+                    format!("fuzz asan {}", l.split("AddressSanitizer: ").nth(1).unwrap_or("").split(' ').next().unwrap_or(""))
+                } else if se.contains("timeout") || f.file_name().map(|n| n.to_string_lossy().starts_with("timeout")).unwrap_or(false) {
+                    res.inconclusive += 1;
+                    continue;
+                } else {
+                    "fuzz crash".to_string()
+                };
+                // keep the artifact where it survives the next run
+                let keep = verif.join("replays/found").join(format!("fuzz-{target}-{}", f.file_name().unwrap().to_string_lossy()));
+                let _ = std::fs::create_dir_all(keep.parent().unwrap());
+                let _ = std::fs::copy(&f, &keep);
+                res.violations.push((fp, keep));
+            }
+        }
+    }
+    res
 }
 
 /// replay one stored case; prints the verdict
